@@ -13,6 +13,20 @@ CHECKS = {
     text="Exhaustive static argument over the source: every object with static storage duration in all 140 TUs is enumerated and every store, writing callee effect and address escape reaching it is collected; the property's own schedule-free formulation ('the library's own static storage is bit-identical before and after every call') holds iff the only written objects are the handler registrations. No schedule is explored because none needs to be.",
     design_ref="DESIGN.md §3.1, §4 C12",
     note=TB + "; libc routines are assumed reentrant except the listed MT-unsafe set; tmpfile_s's documented call counter is a recorded known finding"),
+ "C09": dict(
+    engine="derive",
+    technique="call-graph format-flow classification of all 28 printf/scanf entry points; va_list load-depth pointer derivation in the formatter; filter-language vs libc-directive-grammar intersection by enumeration",
+    category="other",
+    text="For every format string at once: (E) in the library's own formatter no store or writing effect can go through a caller-supplied variadic pointer on any path (exact over the IR), and the 'n' arm only fails; (D) for entry points that delegate to libc, the code inspecting the format is classified and its accepted language is intersected with libc's %n-executing language, yielding a concrete accepted format when the filter is unsound. Unclassifiable filters are reported as not decided, never as violations.",
+    design_ref="DESIGN.md §4 C09",
+    note=TB + "; clang's x86-64 SysV va_arg lowering; libc directive grammars as modelled in sa/checks/c09.py; 21 delegating entry points are recorded known findings (unsound literal \"%n\" pre-scan, reproduced)"),
+ "C19": dict(
+    engine="derive",
+    technique="taint analysis over SSA (sources: loads from either compared region; sinks: branch/select conditions, addresses, division operands, call arguments) at -O0 and, thorough, at -O1/-O2/-O3 IR",
+    category="other",
+    text="Decides the data-independence clause for all contents and all n: no instruction whose execution or address depends on a byte of either region exists in the two functions, at the IR the compiler actually optimises (vectorised forms included in the thorough tier). The result clause (0 iff equal / sign of first difference) is value-level and is not decided.",
+    design_ref="DESIGN.md §4 C19",
+    note=TB + "; the x86 back end is trusted not to turn the remaining arithmetic into secret-dependent branches; only the data-independence clause is claimed"),
 }
 
 NOT_APPLICABLE = {
